@@ -296,8 +296,9 @@ def execute(case, result):
         kwargs.update(case["extra"])
         result.count("translations_with_extra_construct_keywords")
     err = None
+    translator = Translator()
     try:
-        out = Translator().translate_hierarchy(tree, **kwargs)
+        out = translator.translate_hierarchy(tree, **kwargs)
     except ConfigurationError as e:
         err = e
     except Exception as e:
@@ -373,6 +374,26 @@ def execute(case, result):
                 if n is not node and node["nid"] in subtree_nids(n) and n["nid"] in seen:
                     problems.append("ancestor %r of the failing node was constructed" % p)
                     break
+            if not problems:
+                # the mistake is corrected in place and the very same objects are translated again by the same translator:
+                # a refused configuration leaves nothing behind
+                for nid in (fail["nid"], fail.get("inner_nid")):
+                    if nid is not None:
+                        broken = by_nid[nid][0]
+                        broken["__type__"] = "vfact.make"
+                        if fail["kind"] == "wrong_args":
+                            for key in ("__args__", "zzz"):
+                                broken.pop(key, None)
+                faclog.reset()
+                try:
+                    translator.translate_hierarchy(tree, **kwargs)
+                except Exception as e:  # noqa: B902
+                    problems.append("after the failing node (%s at %r) was corrected in place, the same translator refused the tree: %r" % (fail["kind"], path, e))
+                else:
+                    again = [entry["kwargs"].get("nid") for entry in faclog.LOG]
+                    if sorted(again, key=repr) != sorted(by_nid, key=repr):
+                        problems.append("after the failing node was corrected in place, retranslation constructed nodes %r, the tree has %r" % (sorted(again, key=repr), sorted(by_nid, key=repr)))
+                    result.count("corrected_trees_retranslated_by_the_same_translator")
     return [(p, None) for p in problems[:3]]
 
 
@@ -442,7 +463,7 @@ def run_shard(spec):
 
 
 def finish(total, tier):
-    needed = ["valid_trees", "failing_trees", "lists_with_equal_items_of_which_the_later_fails", "failing_trees_with_nested_second_failure", "nodes_constructed", "order_constraints_checked", "cases_with_fresh_imports",
+    needed = ["valid_trees", "corrected_trees_retranslated_by_the_same_translator", "failing_trees", "lists_with_equal_items_of_which_the_later_fails", "failing_trees_with_nested_second_failure", "nodes_constructed", "order_constraints_checked", "cases_with_fresh_imports",
               "translations_with_extra_construct_keywords",
               "trees_with_shared_container", "shared_type_nodes_checked"]
     needed += ["failing_" + k for k in FAILURES]
